@@ -308,17 +308,17 @@ def convStr (d : DS) (h : Handle) : String :=
   let tf := ids.map (fun ida =>
     (if k.archId = ida then
       (if direct then s!"ok:{fmtKey k}:1:{ida}:1" else s!"ok:{fmtKey k}:1:{ida}:1:1")
-     else "err") ++ "/" ++
+     else "err:InvalidEntityType") ++ "/" ++
     (if k.archId = ida then s!"ok:{fmtKey k}" else "!InvalidConversion"))
   let sel := match selectArch ids k.archId with
     | some a => s!"{a}:{fmtKey k}"
-    | none => "err"
+    | none => "err:InvalidEntityType"
   if direct then
     s!"raw={fmtKey k} id={k.archId} hashraw=1 tf=[{joinWith " " tf}] sel={sel}"
   else
     let sa := match selectArch ids k.archId with
       | some _ => s!"{k.archId}/{k.archId}"
-      | none => "err/err"
+      | none => "err:InvalidEntityType/err:InvalidEntityType"
     s!"raw={fmtKey k} id={k.archId} rt=1 hashraw=1 tf=[{joinWith " " tf}] sel={sel} sa={sa}"
 
 /-- C14: `==`, `!=` and hash agreement of a pair of handles (dynamically typed, then typed for
@@ -478,7 +478,7 @@ def step (d : DS) (op : List String) (implObs implSum : String) : String × DS :
       | "any" =>
         (match fromRaw (natOf var) (natOf (rowToks.getD 0 "0")) with
          | some k => ("ok", d.setH nv ⟨.ent, (selectArch d.ids k.archId).getD 0, k⟩)
-         | none => ("err", d))
+         | none => ("err:InvalidRawEntity", d))
       | "ent" =>
         let b := natOf var
         (match fromRaw (natOf (rowToks.getD 0 "0")) (natOf (rowToks.getD 1 "0")) with
@@ -486,7 +486,7 @@ def step (d : DS) (op : List String) (implObs implSum : String) : String × DS :
            (match fromAnyUnchecked d.cfg (d.ids.getD b ID_RANGE) k with
             | some _ => ("ok", d.setH nv ⟨.ent, b, k⟩)
             | none => ("panic DebugAssert", d))
-         | none => ("err", d))
+         | none => ("err:InvalidRawEntity", d))
       | "dir" =>
         let b := natOf var
         (match d.getH (rowToks.getD 0 "") with
